@@ -35,7 +35,7 @@ func (m *pairModel) settled() bool {
 		}
 	}
 
-	return m.exch == 0 && m.side[0].gen == m.side[1].gen && len(m.unsignalled()) == 0
+	return m.exch == 0 && m.side[0].gen == m.side[1].gen && (len(m.unsignalled()) == 0 || len(m.cfg.HoldSignal) > 0)
 }
 
 func (m *pairModel) all() []string {
@@ -70,8 +70,14 @@ func (m *pairModel) defaultEvent() string {
 	case 2:
 		return "answer"
 	}
-	if u := m.unsignalled(); len(u) > 0 {
-		return u[0]
+	for _, u := range m.unsignalled() { // trickled candidates arrive by default; a held one (HoldSignal) only as a deviation
+		held := false
+		for _, h := range m.cfg.HoldSignal {
+			held = held || u == "signal:"+h
+		}
+		if !held {
+			return u
+		}
 	}
 	if len(m.inflight) > 0 {
 		return fmt.Sprintf("deliver:%d", m.inflight[0].seq)
